@@ -417,6 +417,76 @@ Theorem C02_method_update_self : forall c p f,
 Proof. exact genm_update_self_ok. Qed.
 Print Assumptions C02_method_update_self.
 
+(* the remaining public methods: membership, len, |=, ==, !=, copy(), __copy__ *)
+Theorem C02_method_contains : forall c p k,
+  genm_present = true ->
+  call_method c genm_contains (params k MNone MNone MNone MNone) p = of_step (pstep1 c p (Contains k)).
+Proof. exact genm_contains_ok. Qed.
+Print Assumptions C02_method_contains.
+
+Theorem C02_method_len : forall c p,
+  genm_present = true ->
+  call_method c genm_len (params 0 MNone MNone MNone MNone) p = of_step (pstep1 c p Len).
+Proof. exact genm_len_ok. Qed.
+Print Assumptions C02_method_len.
+
+Theorem C02_method_ior_pairs : forall c p e,
+  genm_present = true ->
+  call_method c genm_ior (params 0 MNone MNone (MSeq e) MNone) p = of_self (pstep1 c p (IOr e)).
+Proof. exact genm_ior_pairs_ok. Qed.
+Print Assumptions C02_method_ior_pairs.
+
+Theorem C02_method_ior_mapping : forall c p e,
+  genm_present = true ->
+  call_method c genm_ior (params 0 MNone MNone (MMap e) MNone) p = of_self (pstep1 c p (IOr e)).
+Proof. exact genm_ior_mapping_ok. Qed.
+Print Assumptions C02_method_ior_mapping.
+
+Theorem C02_method_eq_dict : forall c p d,
+  genm_present = true ->
+  call_method c genm_eq (params 0 MNone MNone (MMap d) MNone) p = of_step (pstep1 c p (EqDict d)).
+Proof. exact genm_eq_dict_ok. Qed.
+Print Assumptions C02_method_eq_dict.
+
+Theorem C02_method_eq_self : forall c p,
+  genm_present = true ->
+  call_method c genm_eq (params 0 MNone MNone MSelf MNone) p = (p, EV (MBool true)).
+Proof. exact genm_eq_self_ok. Qed.
+Print Assumptions C02_method_eq_self.
+
+(* a non-mapping operand: dict.__eq__ answers NotImplemented, Python's == then gives
+   False (the model's EqOther) *)
+Theorem C02_method_eq_other : forall c p,
+  genm_present = true ->
+  call_method c genm_eq (params 0 MNone MNone MNone MNone) p = (p, EV MNotImplemented).
+Proof. exact genm_eq_other_ok. Qed.
+Print Assumptions C02_method_eq_other.
+
+Theorem C02_method_ne_dict : forall c p d,
+  genm_present = true ->
+  call_method c genm_ne (params 0 MNone MNone (MMap d) MNone) p = of_step (pstep1 c p (NeDict d)).
+Proof. exact genm_ne_dict_ok. Qed.
+Print Assumptions C02_method_ne_dict.
+
+Theorem C02_method_ne_other : forall c p,
+  genm_present = true ->
+  call_method c genm_ne (params 0 MNone MNone MNone MNone) p = of_step (pstep1 c p NeOther).
+Proof. exact genm_ne_other_ok. Qed.
+Print Assumptions C02_method_ne_other.
+
+(* copy(): the object it returns is the model's pcopy_cache; self is left as it is *)
+Theorem C02_method_copy : forall c p,
+  genm_present = true ->
+  call_method c genm_copy (params 0 MNone MNone MNone MNone) p = of_copy p (pcopy_cache c p).
+Proof. exact genm_copy_ok. Qed.
+Print Assumptions C02_method_copy.
+
+Theorem C02_method_copy_module : forall c p,
+  genm_present = true ->
+  call_method c genm_copy_module (params 0 MNone MNone MNone MNone) p = of_copy p (pcopy_cache c p).
+Proof. exact genm_copy_module_ok. Qed.
+Print Assumptions C02_method_copy_module.
+
 (* ---- counters and recency over whole heaps (copies, update between caches), both levels ------------- *)
 (* run_logs / run_counts (Proofs/C02_HeapThms.v) keep, from outside, one use log and one
    triple of lookup counts per cache of the heap: an operation on cache i appends
